@@ -30,7 +30,7 @@ func init() {
 			ruleOffloadProvenance(r)
 			ruleRangeBuild(r) // the window a metric query asks the daemon for: [start-offset-range, end-offset]
 			ruleKeyToLabel(r) // a container is selectable under the sanitised name of each of its labels
-			ruleTimeParams(r)          // the window the CLI resolves is the window the containers are asked for
+			ruleTimeParams(r) // the window the CLI resolves is the window the containers are asked for
 		},
 	})
 }
